@@ -69,9 +69,6 @@ func renderItems(items []Item) string {
 // runTxt: a script TEXT is parsed (three entry points), printed, parsed again, printed again; both parses are evaluated.
 func runTxt(c *c14case) []*c14event {
 	text := renderItems(c.Items)
-	if c.K == "txt" {
-		return runTxt(c)
-	}
 	elem := c.Elem.Simple()
 	match := func(f func() bool) (r int) {
 		defer func() {
@@ -171,6 +168,14 @@ var keyUniverse = []struct{ cls, key string }{
 	{"nonascii", "é"}, {"rbracket", "a]b"}, {"lbracket", "a[b"}, {"space", "a b"}, {"dot", "a.b"}, {"number", "12"}, {"negnum", "-1"},
 	{"operator", "=="}, {"star", "*"}, {"at", "@"}, {"dollar", "$x"}, {"comma", "a,b"}, {"colon", "a:b"}, {"question", "?a"}, {"paren", "(a)"},
 	{"del", "a\x7fb"}, {"cr", "a\rb"}, {"formfeed", "a\fb"}, {"backspace", "a\bb"}, {"tab", "a\tb"}, {"u2028", "a b"}, {"badutf8", "a\xffb"},
+}
+
+func init() {
+	// every control character individually (a class representative is not enough: the printer's and the parser's escape
+	// tables have one cell per character)
+	for c := 0; c <= 0x1f; c++ {
+		keyUniverse = append(keyUniverse, struct{ cls, key string }{fmt.Sprintf("ctl%02x", c), "a" + string(rune(c)) + "b"})
+	}
 }
 
 func c14doc() any {
@@ -274,6 +279,9 @@ func runC14(c *c14case) []*c14event {
 			evs = append(evs, ev)
 		}
 		return evs
+	}
+	if c.K == "txt" {
+		return runTxt(c)
 	}
 	elem := c.Elem.Simple()
 	match := func(f func() bool) (r int) {
@@ -498,6 +506,60 @@ func genC14(tier string, n int, seed int64) {
 		}
 		emit(&c14case{K: "eq", Cell: cell + " ==", Ast: &AST{Op: "==", L: pth("@"), R: &AST{Op: "const", V: a}}, Elem: el})
 		emit(&c14case{K: "eq", Cell: cell + " left", Ast: &AST{Op: "==", L: &AST{Op: "const", V: a}, R: pth("@")}, Elem: el})
+	}
+	for c := 0; c <= 0x1f; c++ { // every control character individually in a string constant
+		a := absOf("a" + string(rune(c)) + "b")
+		emit(&c14case{K: "eq", Cell: fmt.Sprintf("const(str ctl%02x) ==", c), Ast: &AST{Op: "==", L: pth("@"), R: &AST{Op: "const", V: a}}, Elem: a})
+	}
+	// ---- script TEXTS with explicit parentheses: parent op x (inner op1, inner op2 of different precedence) x side
+	tops := []string{"*", "+", "-", "<", "==", "!=", "&&", "||"}
+	precOf := func(o string) int {
+		switch o {
+		case "*", "/":
+			return 1
+		case "+", "-":
+			return 2
+		case "&&", "||":
+			return 4
+		}
+		return 3
+	}
+	atomFor := func(o string, v, pos int) Item { return Item{K: "atom", T: leafFor(o, v, pos)} }
+	opI := func(o string) Item { return Item{K: "op", O: o} }
+	for _, p := range tops {
+		for _, o1 := range tops {
+			for _, o2 := range tops {
+				if precOf(o1) == precOf(o2) {
+					continue
+				}
+				for v := 0; v < 3; v++ {
+					mid := o1 // the middle operand belongs to the tighter operator
+					if precOf(o2) < precOf(o1) {
+						mid = o2
+					}
+					grp := Item{K: "grp", G: []Item{atomFor(o1, v, 0), opI(o1), atomFor(mid, v, 1), opI(o2), atomFor(o2, v, 2)}}
+					w := atomFor(p, (v+1)%3, 0)
+					for _, side := range []string{"left", "right"} {
+						items := []Item{grp, opI(p), w}
+						if side == "right" {
+							items = []Item{w, opI(p), grp}
+						}
+						cell := "text parent=" + p + " inner=" + o1 + "," + o2 + " side=" + side
+						if precOf(p) <= 2 { // arithmetic parent: compare the value
+							for _, k := range []int64{1, 3} {
+								emit(&c14case{K: "txt", Cell: cell + " cmp", Elem: null, Items: append(append([]Item{}, items...), opI("<"), Item{K: "atom", T: ival(k)})})
+							}
+						} else {
+							emit(&c14case{K: "txt", Cell: cell, Elem: null, Items: items})
+						}
+						if tier != "quick" || v == 0 { // a ! in front of the group and in front of the whole text
+							ng := append([]Item{{K: "not"}}, items...)
+							emit(&c14case{K: "txt", Cell: cell + " not-first", Elem: null, Items: ng})
+						}
+					}
+				}
+			}
+		}
 	}
 	emit(&c14case{K: "eq", Cell: "const(nothing)", Ast: &AST{Op: "==", L: pth("@", "zz"), R: &AST{Op: "const", V: &Abs{T: "nothing"}}}, Elem: null})
 	for _, p := range []string{"a", "^a.", "a/b", "a\\.b", "(?i)A"} {
